@@ -59,7 +59,21 @@ def run(tier="quick", seed=0):
         del sent[:]
         path = None if image_len is None else image_file(image_len)
         image = real_image if image_len is None else open(path, "rb").read()
-        if via_dict:
+        if via_dict == "controller":
+            # through MachineController.boot(), which forwards its keyword arguments to boot()
+            import warnings
+            with warnings.catch_warnings():
+                warnings.simplefilter("ignore")
+                from rig.machine_control import MachineController
+            mc = MachineController(host)
+            del sent[:]         # (the controller's own SCP socket is made from the same recording class)
+            try:
+                mc.boot(only_if_needed=False, check_booted=False, scamp_binary=path, boot_delay=0, post_boot_delay=0, **kwargs)
+                structs = mc.structs
+            finally:
+                for c in list(mc.connections.values()):
+                    c.close()
+        elif via_dict:
             structs = B.boot(host, scamp_binary=path, boot_delay=0, post_boot_delay=0, sv_overrides=dict(kwargs))
         else:
             structs = B.boot(host, scamp_binary=path, boot_delay=0, post_boot_delay=0, **kwargs)
@@ -114,9 +128,11 @@ def run(tier="quick", seed=0):
         # (a) single boots: every size x every option set x both ways of passing
         for sz in sizes:
             for opts in presets:
-                for via in (False, True):
+                for via in (False, True, "controller"):
+                    if via == "controller" and sz not in (512, 1028, None):
+                        continue
                     ev += 1
-                    why = one_boot("h%d" % ev, sz, opts, via)
+                    why = one_boot("h%d" % ev if via != "controller" else "localhost", sz, opts, via)
                     distinct.add((sz, tuple(sorted(opts)), via))
                     if why and len(viol) < 6:
                         viol.append({"id": "boot_%d" % ev, "clause": "single_boot", "why": why,
@@ -140,6 +156,6 @@ def run(tier="quick", seed=0):
             os.unlink(os.path.join(tmpdir, f))
         os.rmdir(tmpdir)
     return {"name": "c20_boot", "evaluations": ev, "distinct_nontrivial": len(distinct),
-            "rule": "real boot() over a recording socket and frozen clock: image lengths %s (None = the bundled scamp.boot) x 4 option sets x options passed as keywords / as sv_overrides; two-boot histories (3 first option sets x 2 second x 4 ways of passing); checks connect, start(n-1), blocks 0..n-1 with a1=(255<<8)|k and <= 1 KiB, end(1), un-swapped concatenation == image outside bytes 384..511, every decodable system variable in the configuration area == this call's option else the struct file's default, returned structs pack to the area sent" % (sizes,),
+            "rule": "real boot() over a recording socket and frozen clock: image lengths %s (None = the bundled scamp.boot) x 4 option sets x options passed as keywords / as sv_overrides / as keywords of MachineController.boot (three image lengths); two-boot histories (3 first option sets x 2 second x 4 ways of passing); checks connect, start(n-1), blocks 0..n-1 with a1=(255<<8)|k and <= 1 KiB, end(1), un-swapped concatenation == image outside bytes 384..511, every decodable system variable in the configuration area == this call's option else the struct file's default, returned structs pack to the area sent" % (sizes,),
             "bound": "listed sizes, option sets and two-boot histories", "exhaustive": False, "label": "bounded",
             "samples": samples, "violations": viol, "seconds": round(_time.time() - t0, 2)}
